@@ -638,3 +638,260 @@ Proof.
 Qed.
 
 End Ranges.
+
+(* the relation only looks at the abstract entries *)
+Lemma refines_ext i enc venc c c' s :
+  (forall k v, ent_of c' k v = ent_of c k v) -> Refines i enc venc c s -> Refines i enc venc c' s.
+Proof.
+  intros E [R1 R2 R3 R4]. constructor; auto.
+  - intros k v Hv. rewrite E. now apply R2.
+  - intros k v. rewrite E. apply R3.
+Qed.
+
+(* ---- (6) instance isolation at the level of the abstract core ---- *)
+Lemma refines_other_instance iA iB enc venc c s ops :
+  id_ok iA -> id_ok iB -> iA <> iB -> store_wf s ->
+  Refines iB enc venc c s -> Refines iB enc venc c (apply_iops iA ops s).
+Proof.
+  intros HA HB NE W [R1 R2 R3 R4].
+  destruct (apply_iops_other iA iB HA HB NE ops s (conj R1 W)) as (SL & S' & _).
+  change (sel (fun k => of_instance iB k) (apply_iops iA ops s) = sel (fun k => of_instance iB k) s)
+    with (instance_slice iB (apply_iops iA ops s) = instance_slice iB s) in SL.
+  constructor.
+  - exact S'.
+  - intros k v Hv.
+    rewrite (kv_get_slice iB (dkey iB enc k v) _ S') by (unfold dkey, construct_data_key; apply prefixb_is_prefix; rewrite data_key_split; now eexists).
+    rewrite (kv_get_slice iB (tkey iB enc k v) _ S') by (unfold tkey, tombstone_key; apply prefixb_is_prefix; rewrite data_key_split; now eexists).
+    rewrite SL.
+    rewrite <- (kv_get_slice iB (dkey iB enc k v) s R1) by (unfold dkey, construct_data_key; apply prefixb_is_prefix; rewrite data_key_split; now eexists).
+    rewrite <- (kv_get_slice iB (tkey iB enc k v) s R1) by (unfold tkey, tombstone_key; apply prefixb_is_prefix; rewrite data_key_split; now eexists).
+    now apply R2.
+  - exact R3.
+  - intros e He O. apply R4; [|exact O].
+    assert (In e (instance_slice iB (apply_iops iA ops s))) by (apply filter_In; auto).
+    rewrite SL in H. now apply filter_In in H.
+Qed.
+
+(* ---- (5) copying an instance ---- *)
+Lemma change_instance_data_key i tk v c m j :
+  change_instance (data_key i tk v c m) j = Ok (data_key j tk v c m).
+Proof.
+  unfold change_instance. rewrite (data_key_layout i tk v c m).
+  rewrite (overwrite_mid [n_dataKeyPrefix] (iid_bytes i) _ (iid_bytes j)) by now rewrite !iid_bytes_length.
+  reflexivity.
+Qed.
+
+Section FoldSet.
+Variable f : bytes -> bytes.
+Definition set_all (l : list kv) (acc : KV.store) : KV.store :=
+  fold_left (fun a e => kv_set (f (fst e)) (snd e) a) l acc.
+
+Lemma set_all_other l : forall acc k, ~ In k (map (fun e => f (fst e)) l) ->
+  kv_get k (set_all l acc) = kv_get k acc.
+Proof.
+  induction l as [|e l IH]; intros acc k N; [reflexivity|]. simpl in *.
+  unfold set_all in *. cbn [fold_left]. rewrite IH by tauto. apply kv_get_set_other. intro E. apply N. now left.
+Qed.
+
+Lemma set_all_in l : forall acc e, NoDup (map (fun e => f (fst e)) l) -> In e l ->
+  kv_get (f (fst e)) (set_all l acc) = Some (snd e).
+Proof.
+  induction l as [|a l IH]; intros acc e ND H; [contradiction|].
+  inversion ND as [|? ? Hn ND']; subst. unfold set_all. cbn [fold_left]. fold (set_all l (kv_set (f (fst a)) (snd a) acc)).
+  destruct H as [->|H].
+  - rewrite set_all_other by exact Hn. apply kv_get_set_same.
+  - now apply IH.
+Qed.
+
+Lemma set_all_sorted l : forall acc, sorted acc -> sorted (set_all l acc).
+Proof. induction l as [|a l IH]; intros acc H; [exact H|]. apply IH. now apply kv_set_sorted. Qed.
+
+Lemma set_all_elems l : forall acc e, In e (set_all l acc) ->
+  In e acc \/ exists e0, In e0 l /\ e = (f (fst e0), snd e0).
+Proof.
+  induction l as [|a l IH]; intros acc e H; [now left|].
+  apply IH in H as [H|(e0 & H0 & ->)].
+  - apply kv_set_in in H as [->|H]; [right; exists a; split; [now left|reflexivity]|now left].
+  - right. exists e0. split; [now right|reflexivity].
+Qed.
+End FoldSet.
+
+Section CopySim.
+Variable i j : N.
+Variable enc : N -> bytes.
+Variable venc : N -> bytes.
+Hypothesis Hi : i < 2 ^ 32 - 1.
+Hypothesis Hj : id_ok j.
+Hypothesis NE : i <> j.
+Hypothesis enc_inj : forall k1 k2, enc k1 = enc k2 -> k1 = k2.
+
+Variable c : core.
+Variable s : KV.store.
+Hypothesis R : Refines i enc venc c s.
+(* the destination instance id is fresh (C06_fresh_instance_empty) *)
+Hypothesis fresh_j : instance_slice j s = [].
+(* whatever the scan of KeyRange i meets is a key of instance i (C06_instance_range, for stores
+   that hold well-formed keys only) *)
+Hypothesis scan_own : forall e, In e s ->
+  in_rangeb (fst (key_range i)) (snd (key_range i)) (fst e) = true -> of_instance i (fst e) = true.
+
+Let Hio : id_ok i. Proof. unfold id_ok. change (2 ^ 32) with 4294967296 in *. lia. Qed.
+Let Hs : sorted s := rf_sorted i enc venc c s R.
+
+(* UpdateInstance as a function on keys: data_key i ... |-> data_key j ... *)
+Definition chg (k : bytes) : bytes := match change_instance k j with Ok k' => k' | _ => k end.
+
+Lemma chg_data_key t v cl m : chg (data_key i t v cl m) = data_key j t v cl m.
+Proof. unfold chg. now rewrite change_instance_data_key. Qed.
+
+Lemma scan_is_slice : scan (fst (key_range i)) (snd (key_range i)) s = instance_slice i s.
+Proof.
+  rewrite scan_filter by exact Hs. unfold instance_slice. apply filter_ext_in. intros e He.
+  destruct (in_rangeb _ _ (fst e)) eqn:B.
+  - symmetry. now apply scan_own.
+  - destruct (of_instance i (fst e)) eqn:O; [|reflexivity].
+    pose proof (key_range_fixed_own i (fst e) Hio O) as X. unfold key_range_fixed in X.
+    replace (i =? n_MaxInstanceID) with false in X; [congruence|].
+    symmetry. apply N.eqb_neq. unfold n_MaxInstanceID. change (2 ^ 32) with 4294967296 in *. lia.
+Qed.
+
+Lemma copy_as_set_all : copy_instance i j s = set_all chg (instance_slice i s) s.
+Proof.
+  unfold copy_instance, set_all. rewrite scan_is_slice.
+  assert (G : forall l acc, (forall e, In e l -> In e s /\ of_instance i (fst e) = true) ->
+    fold_left (fun a e => match change_instance (fst e) j with Ok k' => kv_set k' (snd e) a | _ => a end) l acc
+    = fold_left (fun a e => kv_set (chg (fst e)) (snd e) a) l acc).
+  { induction l as [|e l IH]; intros acc H; [reflexivity|]. cbn [fold_left].
+    destruct (H e ltac:(now left)) as [He O].
+    destruct (rf_keys i enc venc c s R e He O) as (k & u & _ & [E|E]); rewrite E;
+      unfold dkey, tkey, construct_data_key, tombstone_key; rewrite chg_data_key, change_instance_data_key;
+      apply IH; intros e' He'; apply H; now right. }
+  apply G. intros e He. unfold instance_slice in He. now apply filter_In in He.
+Qed.
+
+Lemma slice_elem e : In e (instance_slice i s) ->
+  exists k u m, id_ok u /\ fst e = data_key i (enc k) u 0 m /\ (m = n_MarkData \/ m = n_MarkTombstone).
+Proof.
+  intro He. apply filter_In in He as [He O].
+  destruct (rf_keys i enc venc c s R e He O) as (k & u & Hu & [E|E]); exists k, u; eexists; split; eauto.
+Qed.
+
+Lemma images_nodup : NoDup (map (fun e => chg (fst e)) (instance_slice i s)).
+Proof.
+  rewrite <- (map_map fst chg). apply NoDup_map_in.
+  - intros x y Hx Hy E.
+    apply in_map_iff in Hx as (ex & <- & Hx). apply in_map_iff in Hy as (ey & <- & Hy).
+    destruct (slice_elem ex Hx) as (k1 & u1 & m1 & H1 & E1 & _).
+    destruct (slice_elem ey Hy) as (k2 & u2 & m2 & H2 & E2 & _).
+    rewrite E1, E2 in *. rewrite !chg_data_key in E.
+    destruct (data_key_inj _ _ _ _ _ _ _ _ _ _ Hj H1 id0 Hj H2 id0 E) as (_ & -> & -> & _ & ->). reflexivity.
+  - apply sorted_keys_nodup. apply sorted_filter. exact Hs.
+Qed.
+
+Lemma not_of_j_in_s k : of_instance j k = true -> kv_get k s = None.
+Proof.
+  intro O. destruct (kv_get k s) as [b|] eqn:G; [|reflexivity]. exfalso.
+  apply kv_get_in in G; [|exact Hs].
+  assert (In (k, b) (instance_slice j s)) by (apply filter_In; auto). rewrite fresh_j in H. contradiction.
+Qed.
+
+Lemma instance_prefix a t u cl m : of_instance a (data_key a t u cl m) = true.
+Proof. apply prefixb_is_prefix. rewrite data_key_split. now eexists. Qed.
+
+(* the copied key holds what the source key holds *)
+Lemma copy_get k u m : id_ok u -> (m = n_MarkData \/ m = n_MarkTombstone) ->
+  kv_get (data_key j (enc k) u 0 m) (copy_instance i j s) = kv_get (data_key i (enc k) u 0 m) s.
+Proof.
+  intros Hu Hm. rewrite copy_as_set_all.
+  destruct (kv_get (data_key i (enc k) u 0 m) s) as [b|] eqn:G.
+  - apply kv_get_in in G; [|exact Hs].
+    assert (In (data_key i (enc k) u 0 m, b) (instance_slice i s)).
+    { apply filter_In. split; [exact G|apply instance_prefix]. }
+    rewrite <- chg_data_key.
+    apply (set_all_in chg _ s (data_key i (enc k) u 0 m, b) images_nodup H).
+  - rewrite set_all_other; [apply not_of_j_in_s; apply instance_prefix|].
+    intro H. apply in_map_iff in H as (e & E & He).
+    destruct (slice_elem e He) as (k' & u' & m' & Hu' & E' & _). rewrite E', chg_data_key in E.
+    destruct (data_key_inj _ _ _ _ _ _ _ _ _ _ Hj Hu' id0 Hj Hu id0 E) as (_ & EK & -> & _ & ->).
+    apply enc_inj in EK. subst k'.
+    apply filter_In in He as [He _]. destruct e as [a b]. cbn [fst] in E'. subst a.
+    rewrite (in_kv_get _ b s Hs He) in G. discriminate.
+Qed.
+
+(* the copy refines the same abstract core under the new instance id ... *)
+Lemma copy_refines_dst : Refines j enc venc c (copy_instance i j s).
+Proof.
+  constructor.
+  - rewrite copy_as_set_all. apply set_all_sorted. exact Hs.
+  - intros k u Hu. unfold dkey, tkey, construct_data_key, tombstone_key.
+    rewrite !copy_get by auto. exact (rf_entries i enc venc c s R k u Hu).
+  - exact (rf_versions i enc venc c s R).
+  - intros e He O. rewrite copy_as_set_all in He. apply set_all_elems in He as [He|(e0 & H0 & ->)].
+    + exfalso. assert (In e (instance_slice j s)) by (apply filter_In; auto). rewrite fresh_j in H. contradiction.
+    + destruct (slice_elem e0 H0) as (k & u & m & Hu & E & [->| ->]); exists k, u; split; auto; cbn [fst]; rewrite E, chg_data_key; auto.
+Qed.
+
+(* ... and the source is untouched *)
+Lemma copy_refines_src : Refines i enc venc c (copy_instance i j s).
+Proof.
+  assert (OTHER : forall k, of_instance i k = true -> kv_get k (copy_instance i j s) = kv_get k s).
+  { intros k O. rewrite copy_as_set_all. apply set_all_other. intro H.
+    apply in_map_iff in H as (e & E & He). destruct (slice_elem e He) as (k' & u' & m' & Hu' & E' & _).
+    rewrite E', chg_data_key in E. subst k. rewrite of_instance_data_key in O by (auto). apply N.eqb_eq in O. contradiction. }
+  constructor.
+  - rewrite copy_as_set_all. apply set_all_sorted. exact Hs.
+  - intros k u Hu. rewrite !OTHER by (unfold dkey, tkey, construct_data_key, tombstone_key; apply instance_prefix).
+    exact (rf_entries i enc venc c s R k u Hu).
+  - exact (rf_versions i enc venc c s R).
+  - intros e He O. rewrite copy_as_set_all in He. apply set_all_elems in He as [He|(e0 & H0 & ->)].
+    + now apply (rf_keys i enc venc c s R).
+    + exfalso. destruct (slice_elem e0 H0) as (k & u & m & Hu & E & _). cbn [fst] in O.
+      rewrite E, chg_data_key, of_instance_data_key in O by auto. apply N.eqb_eq in O. contradiction.
+Qed.
+
+(* in the terms of Model.Copy: the byte-level copy refines copy_raw with the identity renaming
+   (the abstract keys are unchanged, only the instance id differs) *)
+Lemma copy_raw_id_entries k v : ent_of (copy_raw (fun k => Some k) c) k v = ent_of c k v.
+Proof.
+  unfold ent_of, copy_raw. cbn [Core.store with_store]. rewrite lookup_app.
+  rewrite (lookup_copy_items (fun k => Some k)) with (k := k); [|intros k1 k2 k' H1 H2; congruence|reflexivity].
+  destruct (lookup_kv k v (Core.store c)); reflexivity.
+Qed.
+
+Lemma copy_refines_copy_raw : Refines j enc venc (copy_raw (fun k => Some k) c) (copy_instance i j s).
+Proof. apply (refines_ext j enc venc c); [apply copy_raw_id_entries|apply copy_refines_dst]. Qed.
+
+End CopySim.
+
+(* every read of the copy equals the read of the source, at every version *)
+Lemma copy_point_reads_equal i j enc venc c s k v :
+  i < 2 ^ 32 - 1 -> id_ok j -> i <> j ->
+  (forall k1 k2, enc k1 = enc k2 -> k1 = k2) -> (forall x, venc x <> []) ->
+  CoreInv c -> Refines i enc venc c s -> instance_slice j s = [] ->
+  (forall e, In e s -> in_rangeb (fst (key_range i)) (snd (key_range i)) (fst e) = true -> of_instance i (fst e) = true) ->
+  point_get (best_of_core c v) (rcx j v) (enc k) (copy_instance i j s)
+  = point_get (best_of_core c v) (rcx i v) (enc k) s.
+Proof.
+  intros Hi Hj NE EI VN I R F SO.
+  assert (Hio : id_ok i) by (unfold id_ok; change (2 ^ 32) with 4294967296 in *; lia).
+  rewrite (refine_point_get j enc venc Hj EI VN c _ (copy_refines_dst i j enc venc Hi Hj NE EI c s R F SO) I).
+  now rewrite (refine_point_get i enc venc Hio EI VN c s R I).
+Qed.
+
+Lemma copy_raw_id_get c k v : CoreInv c -> get (copy_raw (fun k => Some k) c) k v = get c k v.
+Proof.
+  intro I. unfold copy_raw. apply get_ext_store; [exact I|]. intro w.
+  rewrite lookup_app. rewrite (lookup_copy_items (fun k => Some k)) with (k := k);
+    [|intros k1 k2 k' H1 H2; congruence|reflexivity].
+  destruct (lookup_kv k w (Core.store c)); reflexivity.
+Qed.
+
+(* the scan hypothesis of the copy lemmas holds of every store made of well-formed data keys *)
+Lemma scan_own_of_data_keys i (s : KV.store) : i < 2 ^ 32 - 1 ->
+  (forall e, In e s -> exists i' t v c m, id_ok i' /\ fst e = data_key i' t v c m) ->
+  forall e, In e s -> in_rangeb (fst (key_range i)) (snd (key_range i)) (fst e) = true -> of_instance i (fst e) = true.
+Proof.
+  intros Hi W e He B. destruct (W e He) as (i' & t & v & c & m & Hi' & E). rewrite E in *.
+  apply in_rangeb_in_range in B. apply (instance_range i i' t v c m Hi Hi') in B. subst i'.
+  apply prefixb_is_prefix. rewrite data_key_split. now eexists.
+Qed.
